@@ -23,7 +23,7 @@ EXHAUSTIVE_SUBDOMAINS = ["DF 0..31 x TC 0..31 x subtype 0..7 x {zero, ones, rand
 ASSUMPTIONS = ["shape predicates and guard domains are transcribed from the docstrings / error messages of the functions",
                "low-level helpers without a documented domain (e.g. *_with_ref, oe_flag, commb field decoders) are judged for "
                "exception type and shape only"]
-REQUIRED = ["reference_aimed_at_solution_midpoints", "long_frames", "short_frames", "tell", "routing", "guards", "matrix_df17", "matrix_other_df"]
+REQUIRED = ["reference_aimed_at_solution_midpoints", "long_frames", "short_frames", "tell", "tell_on_ascii_only_stdout", "routing", "guards", "matrix_df17", "matrix_other_df"]
 
 # functions that are known to raise ValueError/IndexError on 14-digit frames (empty MB/ME slice); see KNOWN_FINDINGS
 SHORT_FRAME_FUNCS = None  # filled lazily: every commb/adsb function that slices bits beyond 56
@@ -285,11 +285,17 @@ def m_frames(ctx, case):
                 if r[:2] != e[:2]:
                     ctx.violation("routing:position", frame=hx, tc=tc, observed=r, expected=e)
             ctx.hit("routing")
-        # tell
-        buf = io.StringIO()
+        # tell - on a standard output that can only encode ASCII (a log file opened that way, PYTHONIOENCODING=ascii, the C
+        # locale without UTF-8 mode): what tell() prints is the library's choice, where it is printed is the host's
+        class _Ascii(io.StringIO):
+            def write(self, s_):
+                s_.encode("ascii")
+                return io.StringIO.write(self, s_)
+        buf = _Ascii()
         with contextlib.redirect_stdout(buf):
             r = call(pms.tell, hx)
         ctx.ev()
+        ctx.hit("tell_on_ascii_only_stdout")
         if r[0] == "exc" and r[1] != "RuntimeError":
             key = classify_exc("tell", f, r)
             if key.startswith("non-Runtime"):
